@@ -401,7 +401,15 @@ WellFormed(m) ==
         /\ wc.ok
         /\ \A k \in pdskeys : /\ Len(k.s) = 4 /\ AllDigits(k.s) /\ m[k].t = "s" /\ Len(m[k].v) <= 992
                               /\ EncodeOk(m[k].v)
-        /\ pdskeys # {} => \A i \in 1..Len(Carriers) : DE(Carriers[i]) \notin DOMAIN m
+        \* a carrier element supplied directly next to PDS entries: it must lie behind the carriers the packing uses
+        \* (those are overwritten) and may not repeat a tag of the PDS entries (the later carrier would win on reading)
+        /\ pdskeys # {} =>
+              LET np == Len(PDS!Pack(PdsItems(m))) IN
+              \A i \in 1..Len(Carriers) : DE(Carriers[i]) \in DOMAIN m =>
+                  /\ i > np
+                  /\ m[DE(Carriers[i])].t = "s"
+                  /\ LET its == PDS!Walk(m[DE(Carriers[i])].v).items
+                     IN  \A j \in 1..Len(its) : K("PDS", 0, its[j].tag) \notin pdskeys
         /\ \A k \in DOMAIN m : k.kind \in {"MTI", "DE", "PDS"}
         /\ \A k \in DOMAIN m : k.kind = "DE" =>
               /\ k.n \in 2..128 /\ Cfg[k.n].ftype # "NONE"
